@@ -94,6 +94,15 @@ CHECKS = {
         note="Trusted: ideal cryptography incl. ideal SRP (real SRP values are C02); sampled paths replayed with the repository's "
              "SrpServer and real Ed25519/ChaCha20/HKDF on the real library. Transport drivers not covered.",
         design="DESIGN.md section 5 C03"),
+    "C06": dict(
+        text="One inductive step per primitive operation of the session ciphers (IP data_received, BLE EncryptionKey/DecryptionKey, CoAP "
+             "EncryptionContext encrypt/decrypt/decrypt_event/_decrypt_response) from ARBITRARY symbolic counters (0..2^48) with a message "
+             "that is genuine-with-symbolic-counter or forged: z3 discharges nonce = current send counter, accept only in order / at "
+             "most once, counters advance once, failed decrypt leaves them unchanged. With 'new keys start at 0' the induction covers "
+             "histories of any length. The CoAP resynchronisation heuristics are reported as two KNOWN-FINDINGs.",
+        note="Trusted: ideal AEAD; counters as mathematical integers (no wrap); the close-connection-on-failure half needs a running loop "
+             "and is not decided (the induction does not depend on it for IP/BLE).",
+        design="DESIGN.md section 5 C06"),
 }
 
 NOT_APPLICABLE = {
